@@ -280,6 +280,10 @@ func bindReturn(binds map[*ssa.Call]*ssa.Return, c *ssa.Call, ret *ssa.Return) (
 			}
 		case *ssa.MakeInterface:
 			useful = true
+		default:
+			if isErrorType(v.Type()) && retNonNil(ret, i) {
+				useful = true
+			}
 		}
 	}
 	if _, had := binds[c]; !useful && !had {
@@ -410,6 +414,24 @@ func boundCond(cond ssa.Value, binds map[*ssa.Call]*ssa.Return) (val, known bool
 		}
 	case *ssa.MakeInterface:
 		isNil, decided = false, true
+	default:
+		if isErrorType(rv.Type()) {
+			// the return statement the path left the helper through returns an error that is known
+			// non-nil there (fmt.Errorf, or a value only reachable behind its own != nil edge)
+			var ret *ssa.Return
+			idx := 0
+			switch x := other.(type) {
+			case *ssa.Extract:
+				if c, ok := x.Tuple.(*ssa.Call); ok {
+					ret, idx = binds[c], x.Index
+				}
+			case *ssa.Call:
+				ret = binds[x]
+			}
+			if ret != nil && retNonNil(ret, idx) {
+				isNil, decided = false, true
+			}
+		}
 	}
 	if !decided {
 		return false, false
@@ -418,6 +440,28 @@ func boundCond(cond ssa.Value, binds map[*ssa.Call]*ssa.Return) (val, known bool
 		return isNil, true
 	}
 	return !isNil, true
+}
+
+var retNonNilCache = map[*ssa.Return]map[int]bool{}
+var retNonNilBusy = false
+
+// retNonNil: result i of this return statement is an error known to be non-nil.
+func retNonNil(ret *ssa.Return, i int) bool {
+	if m, ok := retNonNilCache[ret]; ok {
+		if v, ok := m[i]; ok {
+			return v
+		}
+	} else {
+		retNonNilCache[ret] = map[int]bool{}
+	}
+	if retNonNilBusy {
+		return false // knownNonNilAt runs a Search itself: no re-entry
+	}
+	retNonNilBusy = true
+	v := knownNonNilAt(retVal(ret, i), ret)
+	retNonNilBusy = false
+	retNonNilCache[ret][i] = v
+	return v
 }
 
 // Run returns whether the target is reachable and, if so, the block path.
